@@ -165,8 +165,71 @@ def _channels(ck):
         ck.add(f"channels/ch1/bin{b}", sym.equal_goal(enc.outs[0][1, b], enc.outs[2][0, b]), facts, family="channels are treated independently")
 
 
+def _bin_edge_replay(vals, meta):
+    """real get_spectrum (sub-process in the session precision of the witness) on the single mode the solver names"""
+
+    def replay(model):
+        import subprocess
+        import sys
+
+        D = meta["D"]
+        k = [int(vals[f"k{i}"]) for i in range(D)] if isinstance(vals, dict) else None
+        if not k or max(k) == 0:
+            return {"reproduced": False, "detail": f"no usable witness: {vals}"}
+        N = 2 * max(k) + 2
+        if N**D > 3e7:
+            return {"reproduced": False, "detail": f"witness needs a {N}^{D} grid: too large to replay"}
+        prog = f"""
+import sys, math
+sys.path.insert(0, '/repo')
+import jax
+jax.config.update('jax_enable_x64', {meta['dtype'] == 'f64'})
+import jax.numpy as jnp, exponax as ex
+k = {k}; D = {D}; N = {N}
+g = ex.make_grid(D, 2 * math.pi, N)
+u = jnp.cos(sum(kk * g[i] for i, kk in enumerate(k)))[None]
+s = ex.get_spectrum(u, power=False)[0]
+r2 = sum(x * x for x in k); b = math.isqrt(r2); b = b if 4 * r2 < (2 * b + 1) ** 2 else b + 1
+got = int(jnp.argmax(s))
+print('BIN', got, b)
+"""
+        out = subprocess.run([sys.executable, "-c", prog], capture_output=True, text=True, timeout=900).stdout
+        line = [ln for ln in out.splitlines() if ln.startswith("BIN")]
+        if not line:
+            return {"reproduced": False, "detail": "replay program failed"}
+        got, want_ = map(int, line[0].split()[1:])
+        return {"reproduced": got != want_ and want_ <= N // 2, "detail": f"single mode k={k} on N={N} ({meta['dtype']}): get_spectrum puts it in bin {got}, round(|k|) = {want_}"}
+
+    return replay
+
+
 def _bin_edges_all_N(ck):
     """float bin membership == exact integer membership for |k_i| <= 128 (N <= 256)"""
+    # the FP query below is generated for the bin test AS WRITTEN IN THE CURRENT SOURCE: the statements of
+    # get_spectrum that define the test are read from the AST; any other shape makes this part inconclusive
+    import ast
+    import inspect
+    import textwrap
+
+    want = {
+        "wavenumbers_norm": "jnp.linalg.norm(wavenumbers_mesh, axis=0, keepdims=True)",
+        "dk": "wavenumbers_1d[0, 1] - wavenumbers_1d[0, 0]",
+        "lower_limit": "k - dk / 2",
+        "upper_limit": "k + dk / 2",
+        "mask": "(wavenumbers_norm[0] >= lower_limit) & (wavenumbers_norm[0] < upper_limit)",
+    }
+    try:
+        tree = ast.parse(textwrap.dedent(inspect.getsource(ex.spectral.get_spectrum)))
+        got = {}
+        for n in ast.walk(tree):
+            if isinstance(n, ast.Assign) and len(n.targets) == 1 and isinstance(n.targets[0], ast.Name) and n.targets[0].id in want:
+                got.setdefault(n.targets[0].id, []).append(ast.unparse(n.value))
+        diff = {k: got.get(k) for k, v in want.items() if got.get(k) != [ast.unparse(ast.parse(v, mode="eval").body)]}
+    except (OSError, SyntaxError, TypeError) as ex_:
+        diff = {"source": repr(ex_)}
+    if diff:
+        ck.add_direct("E2/bin-edge/encoding", "unknown", family="radial bin test in floats = exact integer test (all N<=256)", detail=f"the bin test of the current get_spectrum is not in the shape this encoder translates: {diff}")
+        return
     W = 32
     bv = lambda n: f"(_ bv{n} {W})"
     items = []
@@ -192,5 +255,5 @@ def _bin_edges_all_N(ck):
     res = pyk.solve_all(items, timeout_s=600 if ck.tier == "thorough" else 240)
     for (name, txt, meta), (st, vals, t, raw) in zip(items, res):
         ck.add_direct(f"E2/{name}", st, family="radial bin test in floats = exact integer test (all N<=256)", detail=f"{meta} -> {st} {vals} ({t:.1f}s)", t=t,
-                      replay=lambda m, vals=vals, meta=meta: {"reproduced": True, "detail": f"float bin test differs from round(|k|) for wavenumber vector / bin {vals} ({meta})"})
+                      replay=_bin_edge_replay(vals, meta))
         ck.obls[-1].text = ck.obls[-1].goal_text = txt
